@@ -830,7 +830,7 @@ func planAnchorMoved(p *Prog, in *inliner, plan *canonPlan) {
 			}
 			okR := true
 			for i := 0; i < sig.Results().Len(); i++ {
-				if types.TypeString(sig.Results().At(i).Type(), q) != want.RTypes[i] {
+				if types.TypeString(stripParamNames(sig.Results().At(i).Type()), q) != want.RTypes[i] {
 					okR = false
 				}
 			}
@@ -839,10 +839,10 @@ func planAnchorMoved(p *Prog, in *inliner, plan *canonPlan) {
 			}
 			var ops []string
 			if r := sig.Recv(); r != nil {
-				ops = append(ops, types.TypeString(r.Type(), q))
+				ops = append(ops, types.TypeString(stripParamNames(r.Type()), q))
 			}
 			for i := 0; i < sig.Params().Len(); i++ {
-				ops = append(ops, types.TypeString(sig.Params().At(i).Type(), q))
+				ops = append(ops, types.TypeString(stripParamNames(sig.Params().At(i).Type()), q))
 			}
 			if len(ops) != len(want.PTypes) {
 				continue
@@ -1915,4 +1915,37 @@ func planParamWiden(p *Prog, in *inliner, plan *canonPlan, skipDecl map[*ast.Fun
 		skipDecl[d] = true
 		plan.expanded = append(plan.expanded, "parameter widened: "+d.Name.Name+" "+pobj.Name()+" -> "+pname+"."+c.field+" (again)")
 	}
+}
+
+// stripParamNames: the type with the parameter and result names of every function type in it dropped
+// (`func(nodeName *string) bool` is `func(*string) bool`): names are documentation, not part of the type's identity.
+func stripParamNames(t types.Type) types.Type {
+	switch x := t.(type) {
+	case *types.Signature:
+		tuple := func(tp *types.Tuple) *types.Tuple {
+			if tp == nil {
+				return nil
+			}
+			vs := make([]*types.Var, tp.Len())
+			for i := 0; i < tp.Len(); i++ {
+				vs[i] = types.NewVar(tp.At(i).Pos(), tp.At(i).Pkg(), "", stripParamNames(tp.At(i).Type()))
+			}
+			return types.NewTuple(vs...)
+		}
+		if x.TypeParams() != nil || x.Recv() != nil {
+			return t
+		}
+		return types.NewSignatureType(nil, nil, nil, tuple(x.Params()), tuple(x.Results()), x.Variadic())
+	case *types.Pointer:
+		return types.NewPointer(stripParamNames(x.Elem()))
+	case *types.Slice:
+		return types.NewSlice(stripParamNames(x.Elem()))
+	case *types.Array:
+		return types.NewArray(stripParamNames(x.Elem()), x.Len())
+	case *types.Map:
+		return types.NewMap(stripParamNames(x.Key()), stripParamNames(x.Elem()))
+	case *types.Chan:
+		return types.NewChan(x.Dir(), stripParamNames(x.Elem()))
+	}
+	return t
 }
